@@ -172,7 +172,11 @@ class SeqPlugin(Plugin):
             return PBuiltin("write", _file_write, obj)
         if isinstance(obj, PObj) and obj.clsname == "InFile":
             if name == "readlines":
-                return PBuiltin("readlines", lambda I_, f: PList(list(f.fields["lines"].items)), obj)
+                def rls(I_, f):
+                    rest = list(f.fields["lines"].items)
+                    del f.fields["lines"].items[:]          # a file object is consumed by reading
+                    return PList(rest)
+                return PBuiltin("readlines", rls, obj)
             if name == "readline":
                 def rl(I_, f):
                     return f.fields["lines"].items.pop(0) if f.fields["lines"].items else ""
@@ -180,7 +184,8 @@ class SeqPlugin(Plugin):
             if name == "read":
                 def rd(I_, f):
                     # the whole remaining text; its exact content is only available when every chunk is a plain str
-                    items = f.fields["lines"].items
+                    items = list(f.fields["lines"].items)
+                    del f.fields["lines"].items[:]
                     if all(isinstance(x, str) for x in items):
                         return "".join(items)
                     from .interp import FStr
@@ -193,7 +198,11 @@ class SeqPlugin(Plugin):
 
     def iterate(self, I, it, node):
         if isinstance(it, PObj) and it.clsname == "InFile":
-            return list(it.fields["lines"].items)
+            # iterating a file consumes it line by line: a second loop over the same object goes on where a `break` left
+            def consume(lines=it.fields["lines"].items):
+                while lines:
+                    yield lines.pop(0)
+            return consume()
         return SeqPluginIter(self, I, it, node)
 
     def reset(self):
